@@ -41,8 +41,12 @@ def gen_case(rng):
     # a saved query is named by its path below zoq/: plain words, but also names with `-`, `.`, upper case, sub-directories
     names = [rng.choice([f"q{i}", f"q{i}", f"q-{i}", f"q.{i}", f"sub/q{i}", f"Q_{i}", f"tmp/x-{i}.v2"]) for i in range(n)]
     saved = {}
+    long_one = rng.randrange(n) if rng.random() < 0.06 else None
     for i in reversed(range(n)):
         w = gen_where(rng, names[i + 1 :])
+        if i == long_one:
+            # a saved query whose first line is far longer than a kilobyte (a long list of exclusions)
+            w = w + " " + " ".join(f"!+excl{j:03d}" for j in range(rng.randint(110, 160))) + " !#work"
         line = rng.choice(["# W {w}", "# S note W {w} G file", "# W {w} O priority G none", "# S file W {w} O alpha", "# W {w} G type file O create"]).format(w=w)
         extra = rng.choice(["", "\n#\n# SAVED QUERY GENERATED ON 2024-01-01 AT 00:00:00.\n\n- old result"])
         saved[names[i]] = line + extra
@@ -230,7 +234,7 @@ def classify(f: C.Failure, entry: dict) -> bool:
 
 
 RULE = (
-    "acyclic sets of 1-5 saved query pages (names with -, ., upper case and sub-directories; S/O/G clauses in every order, alternatives, parenthesised groups, nested references, old results "
+    "acyclic sets of 1-5 saved query pages (6% with a first line of 1.2-1.8 kB; names with -, ., upper case and sub-directories; S/O/G clauses in every order, alternatives, parenthesised groups, nested references, old results "
     "below the first line) x referencing queries; expand_saved_queries text vs the Lean model; missing names; then on real indexes "
     "swog.execute of the referencing query vs the explicit conjunction with every reference parenthesised; non-trivial = query with a reference"
 )
